@@ -99,3 +99,31 @@ pub mod preprocessing;
 pub mod svm;
 /// Supervised tree-based learning methods
 pub mod tree;
+
+/// Verification hooks (re-exports of crate-private items); compiled only with feature `verif`.
+#[cfg(feature = "verif")]
+pub mod verif_hooks {
+    pub use crate::algorithm::neighbour::bbd_tree::verif_bbd_clustering;
+    pub use crate::algorithm::neighbour::bbd_tree::verif_bbd_prune;
+    pub use crate::algorithm::neighbour::bbd_tree::BBDTree;
+    pub use crate::algorithm::sort::heap_select::HeapSelection;
+    pub use crate::algorithm::sort::quick_sort::QuickArgSort;
+    pub use crate::cluster::kmeans::verif_kmeans_from_centroids;
+    pub use crate::linear::bg_solver::BiconjugateGradientSolver;
+    pub use crate::linear::lasso_optimizer::InteriorPointOptimizer;
+    pub use crate::math::vector::RealNumberVector;
+    pub use crate::metrics::cluster_helpers::{contingency_matrix, entropy, mutual_info_score};
+    pub use crate::neighbors::verif_calc_weights;
+    pub use crate::optimization::first_order::lbfgs::LBFGS;
+    pub use crate::optimization::first_order::{FirstOrderOptimizer, OptimizerResult};
+    pub use crate::optimization::line_search::{Backtracking, LineSearchMethod};
+    pub use crate::optimization::{FunctionOrder, DF, F};
+    pub use crate::preprocessing::categorical::verif_find_new_idxs;
+    pub use crate::preprocessing::verif_data_traits::{CategoricalFloat, Categorizable};
+    pub use crate::svm::svc::verif_svc_from_parts;
+    pub use crate::svm::svr::verif_svr_from_parts;
+    pub use crate::tree::decision_tree_classifier::{
+        verif_best_split_classifier, verif_impurity, verif_which_max,
+    };
+    pub use crate::tree::decision_tree_regressor::verif_best_split_regressor;
+}
